@@ -50,6 +50,7 @@ def _spec(draw, tier):
       'id_flip': draw(st.booleans()),
       'rename': draw(st.booleans()),
       'k': draw(st.sampled_from([0, 0, 1, -1, 3, -3, 8, -8, 5, -20, 20, -45, 45, -33, 30])),
+      'row_labels': draw(st.sampled_from([None, 'kept', 'gaps', 'repeated'])),
   }
   spec['child_hashseed'] = draw(st.integers(1, 4000)) if (tier == 'thorough' and draw(st.integers(0, 60)) == 0) else None
   return spec
@@ -123,7 +124,8 @@ def run(spec):
   inv = {v: k for k, v in rn.items()} if rn else None
   scale = 2.0 ** tr['k']
   id_int = (not spec['panel']['id_int']) if tr['id_flip'] else None
-  other_case = L.transformed(case, scale=scale, rename=rn, date_shift=tr['shift'], id_int=id_int, perm_seed=tr['perm_seed'])
+  other_case = L.transformed(case, scale=scale, rename=rn, date_shift=tr['shift'], id_int=id_int, perm_seed=tr['perm_seed'],
+                             row_labels=tr.get('row_labels'))
   identity = not (tr['perm_seed'] or tr['shift'] or tr['rename'] or tr['k'] or (tr['id_flip'] and all(g.isdigit() for g in spec['panel']['ids'])))
   if spec['panel'].get('mirror'):
     cls.append('tied-impact-pair')
